@@ -327,7 +327,7 @@ func init() {
 		if nanos == nil {
 			unsupportedf("time.Unix with symbolic seconds")
 		}
-		return structure{uint64(1), nanos, (*value)(nil)}
+		return structure{uint64(1), nanos, i.env.zoneLocal().(*value)}
 	})
 	reg("(time.Time).UTC", func(i *interpreter, fr *frame, args []value) value {
 		return copyVal(args[0])
